@@ -35,3 +35,7 @@ def hook(task, seq, digest):
 
 def generator_message(seq, slug):
     return f'tcv|{seq}|gen|{slug}'
+
+
+def generator_record(seq):
+    return f'genrec|{seq}'
